@@ -22,7 +22,7 @@ Fixpoint compare_rules (spec : list (string * status)) (impl : list (string * st
   end.
 
 Definition c01_check (fuel : nat) (rt : re_table) (prog : rules_file) (doc : pv) (impl : impl_result) : c01_verdict :=
-  match spec_file (re_of_table rt) prog doc fuel, impl with
+  match spec_file (re_of_table rt) (fun _ => true) prog doc fuel, impl with
   | SOut, _ => C01NotCovered
   | _, IPanic | _, IAbort => C01NotCovered
   | SUndef, IErr _ => C01AgreeUndef
